@@ -32,11 +32,21 @@ ASSUMPTIONS = [
 ]
 
 
+def _race_build(name, src, repo_src):
+    """-DVS_PROJECT lets the harness read private fields for its step records; a tree whose fields were renamed still
+    gets an instrumented build, without that projection (the race verdict does not use it)."""
+    exe = common.build(name, [src], RFLAGS, repo_src, plain_sources=PLAIN, plain_flags=PFLAGS, compile_only_flags=TSAN, may_fail=True)
+    if exe is None:
+        exe = common.build(name + "_np", [src], [f for f in RFLAGS if f != "-DVS_PROJECT"], repo_src, plain_sources=PLAIN, plain_flags=PFLAGS,
+                           compile_only_flags=TSAN)
+    return exe
+
+
 def build_all():
     exes = {}
-    exes["lock"] = common.build("resource_race", ["resource/resource_harness.cpp"], RFLAGS, lock.REPO_SRC, plain_sources=PLAIN, plain_flags=PFLAGS, compile_only_flags=TSAN)
-    exes["pool"] = common.build("pool_race", ["pool/pool_harness.cpp"], RFLAGS, pool.REPO_SRC, plain_sources=PLAIN, plain_flags=PFLAGS, compile_only_flags=TSAN)
-    exes["router"] = common.build("concrouter_race", ["observer/conc_router_harness.cpp"], RFLAGS, concrouter.REPO_SRC, plain_sources=PLAIN, plain_flags=PFLAGS, compile_only_flags=TSAN)
+    exes["lock"] = _race_build("resource_race", "resource/resource_harness.cpp", lock.REPO_SRC)
+    exes["pool"] = _race_build("pool_race", "pool/pool_harness.cpp", pool.REPO_SRC)
+    exes["router"] = _race_build("concrouter_race", "observer/conc_router_harness.cpp", concrouter.REPO_SRC)
     return exes
 
 
